@@ -270,3 +270,55 @@ Definition interpolate2 (o : itab2) (x y : T) : res T :=
     rbind (get2 (jf o) i (S j)) (fun f3 =>
       Ok (jpre o * bilinear t u f0 f1 f2 f3)%num)))))))))).
 End Model.
+
+(** ** Sessions: several objects alive in one process, tables assigned to an object that already answered
+    requests (F = Interpolation(table2); a new object constructed in the storage of a destroyed one; copy
+    assignment from another live object), requests to the objects interleaved.  The classes keep no state outside
+    the object (no statics), and assignment replaces the whole table, so the model of a session is a list of
+    slots holding objects; a request to a slot is answered by the object the slot holds NOW, as a fresh object
+    would.  Polymorphic in the object / request / answer types: instantiated with [itab] and [itab2] by the
+    driver ([CPut] carries the constructor's result, [Exit] when the constructor terminates the process). *)
+Section Session.
+Context {Obj Q Out : Type} (answer : Obj -> Q -> res Out).
+Inductive scmd : Type :=
+| CPut (k : nat) (r : res Obj)      (* slot k = <constructor call> *)
+| CCopy (dst src : nat)             (* slot dst = slot src *)
+| CAsk (k : nat) (q : Q).           (* a request to the object in slot k *)
+Fixpoint set_slot (st : list (option Obj)) (k : nat) (o : Obj) : list (option Obj) :=
+  match k, st with
+  | O, [] => [Some o]
+  | O, _ :: r => Some o :: r
+  | S k', [] => None :: set_slot [] k' o
+  | S k', a :: r => a :: set_slot r k' o
+  end.
+Definition get_slot (st : list (option Obj)) (k : nat) : res Obj :=
+  match nth_error st k with Some (Some o) => Ok o | _ => OOB end.
+Definition session_step (st : list (option Obj)) (c : scmd) : res (list (option Obj) * option Out) :=
+  match c with
+  | CPut k r => rbind r (fun o => Ok (set_slot st k o, None))
+  | CCopy d s => rbind (get_slot st s) (fun o => Ok (set_slot st d o, None))
+  | CAsk k q => rbind (get_slot st k) (fun o => rbind (answer o q) (fun v => Ok (st, Some v)))
+  end.
+Fixpoint session_run (st : list (option Obj)) (cmds : list scmd) : res (list Out) :=
+  match cmds with
+  | [] => Ok []
+  | c :: r =>
+      rbind (session_step st c) (fun p =>
+      rbind (session_run (fst p) r) (fun outs =>
+        Ok (match snd p with Some v => v :: outs | None => outs end)))
+  end.
+End Session.
+
+(** requests to a 1-D object and their answers *)
+Section Requests.
+Context {T : Type} (Ops : NumOps T).
+Inductive query1 : Type := QI (x : T) | QD (k : Z) (x : T) | QL (x : T).
+Inductive answer1 : Type := AV (v : T) | AJ (j : nat).
+Definition answer_1d (o : itab) (q : query1) : res answer1 :=
+  match q with
+  | QI x => rbind (interpolate Ops o x) (fun v => Ok (AV v))
+  | QD k x => rbind (derivative Ops o x k) (fun v => Ok (AV v))
+  | QL x => rbind (locate Ops o x) (fun j => Ok (AJ j))
+  end.
+Definition answer_2d (o : itab2) (q : T * T) : res T := interpolate2 Ops o (fst q) (snd q).
+End Requests.
